@@ -497,7 +497,7 @@ impl Harness for DynSegmentHarness {
         let mut params = BTreeMap::new();
         params.insert("overflow".into(), r.chance(0.5) as i64);
         params.insert("history".into(), history);
-        params.insert("max_borrow".into(), r.range(1, 3));
+        params.insert("max_borrow".into(), r.range(1, 4));
         params.insert("max_buffer".into(), max_buffer);
         params.insert("max_pubs".into(), r.range(1, 2));
         params.insert("max_subs".into(), r.range(1, 2));
@@ -544,8 +544,43 @@ impl Harness for DynSegmentHarness {
             };
             ops.push(op);
         }
-        ops.insert(0, gen_cp(r, 0, base_len));
-        ops.insert(1, Op::new("cs", &[0, r.range(1, max_buffer), 0]));
+        if r.chance(0.4) {
+            // the scenario the property singles out, with seeded parameters: a subscriber holds several samples
+            // of the old segment, the publisher grows (possibly more than once), the subscriber receives from the
+            // new segment and releases old and new samples in a seeded order, then the random history continues
+            let max_borrow = params["max_borrow"];
+            let strategy = if fixed_strategy > 0 { fixed_strategy } else { r.range(1, 2) };
+            let mut pre = vec![Op::new("cp", &[0, r.range(1, 3), strategy, base_len]), Op::new("cs", &[0, max_buffer, 0])];
+            let mut len = base_len;
+            for _ in 0..r.range(1, 3) {
+                let n_old = r.range(1, max_borrow.min(max_buffer));
+                for _ in 0..n_old {
+                    pre.push(Op::new("send", &[0, len, 1]));
+                }
+                for _ in 0..n_old {
+                    pre.push(Op::new("recv", &[0]));
+                }
+                len += r.range(1, 40);
+                if r.chance(0.3) {
+                    pre.push(Op::new("loan", &[0, len]));
+                } else {
+                    pre.push(Op::new("send", &[0, len, 1]));
+                    pre.push(Op::new("recv", &[0]));
+                }
+                for _ in 0..r.range(0, 3) {
+                    pre.push(Op::new("rel", &[0, r.range(0, 3)]));
+                }
+                if r.chance(0.2) {
+                    pre.push(Op::new("dp", &[0]));
+                    pre.push(Op::new("cp", &[0, r.range(1, 3), strategy, base_len]));
+                }
+            }
+            pre.append(&mut ops);
+            ops = pre;
+        } else {
+            ops.insert(0, gen_cp(r, 0, base_len));
+            ops.insert(1, Op::new("cs", &[0, r.range(1, max_buffer), 0]));
+        }
         let plan = Plan { harness: self.name().into(), mode: mode.into(), params, threads: vec![ops] };
         let mut cfg = CfgSer::base();
         cfg.step_cap = 4_000_000;
